@@ -1091,6 +1091,7 @@ impl Task {
             if pri_keys_regex.is_match(name) {
                 continue;
             }
+            // every enclosing scope holding the name is updated: a nearer copy must not go stale
             for t in refs.iter().rev() {
                 let is_updated = t.update_data_if_exists(|v| {
                     if v.contains_key(name) {
@@ -1106,7 +1107,6 @@ impl Task {
                         .cache()
                         .upsert(t)
                         .unwrap_or_else(|err| error!("update_data upsert={}", err));
-                    break;
                 }
             }
         }
